@@ -639,7 +639,7 @@ theorem claimBoostedRewards_kind {s s' : St} {caller : Nat} {optUser : Option Na
 theorem settle_kind {s s' : St} (h : settle s = some s') : s'.kind = s.kind := by
   simp only [settle, Option.bind_eq_bind, Option.bind_eq_some_iff, Option.pure_def, Option.some.injEq] at h
   obtain ⟨⟨s1, c1⟩, h1, rfl⟩ := h
-  exact generate_kind h1
+  exact (generate_kind h1 : s1.kind = s.kind)
 
 /-- the kind of a farm is fixed at deployment -/
 theorem step_kind {s s' : St} {op : Op} {o : Out} (h : step s op = some (s', o)) : s'.kind = s.kind := by
@@ -704,7 +704,7 @@ theorem step_kind {s s' : St} {op : Op} {o : Out} (h : step s op = some (s', o))
     simp only [setPerBlock, Option.bind_eq_bind, Option.bind_eq_some_iff, Option.pure_def,
       Option.some.injEq] at h1
     obtain ⟨_, _, _, _, s2, h2, rfl⟩ := h1
-    exact settle_kind h2
+    exact (settle_kind h2 : s2.kind = s.kind)
   case startProduce c =>
     simp only [noOut, Option.map_eq_some_iff, Prod.mk.injEq] at h
     obtain ⟨s1, h1, rfl, _⟩ := h
@@ -718,14 +718,14 @@ theorem step_kind {s s' : St} {op : Op} {o : Out} (h : step s op = some (s', o))
     simp only [endProduce, Option.bind_eq_bind, Option.bind_eq_some_iff, Option.pure_def,
       Option.some.injEq] at h1
     obtain ⟨_, _, s2, h2, rfl⟩ := h1
-    exact settle_kind h2
+    exact (settle_kind h2 : s2.kind = s.kind)
   case setPct c p =>
     simp only [noOut, Option.map_eq_some_iff, Prod.mk.injEq] at h
     obtain ⟨s1, h1, rfl, _⟩ := h
     simp only [setPct, Option.bind_eq_bind, Option.bind_eq_some_iff, Option.pure_def,
       Option.some.injEq] at h1
     obtain ⟨_, _, _, _, s2, h2, rfl⟩ := h1
-    exact settle_kind h2
+    exact (settle_kind h2 : s2.kind = s.kind)
   case setFactors c f =>
     simp only [noOut, Option.map_eq_some_iff, Prod.mk.injEq] at h
     obtain ⟨s1, h1, rfl, _⟩ := h
